@@ -81,9 +81,12 @@ func (r *Restoration) Commit() {
 	r.tx.Commit()
 
 	r.s.mu.Lock()
-	defer r.s.mu.Unlock()
-
 	r.s.db = r.db
+	r.s.mu.Unlock()
+
+	// Close the watches only after releasing mu: a concurrent WatchList holds the
+	// publisher's lock while its snapshot handler waits for mu, so refreshing the
+	// topic (which needs the publisher's lock) with mu held can deadlock.
 	r.s.pub.RefreshTopic(eventTopic)
 }
 
